@@ -167,6 +167,11 @@ func firstPos(c *Ctx, fn *ssa.Function) string {
 func adopt(dst, src *report.Result, rules map[string]string, why string, only ...func(report.Finding) bool) {
 	for from, to := range rules {
 		n := src.Instances[from]
+		if n == 0 {
+			// the sibling rule set did not get as far as this rule (its anchors were not resolved): fail closed
+			dst.Fail("unresolved", to, "adopted rule "+from+" of "+src.Property, "", "the rule produced no instance on this program ["+why+"]")
+			continue
+		}
 		bad := 0
 		for _, f := range src.Findings {
 			if f.Rule == from && (len(only) == 0 || only[0](f)) {
